@@ -64,7 +64,7 @@ theorem mid_step_lazy {P : Par} (hP : P.Ok) {out : List Nat} {w : W} {c0 : Clien
   generalize hc : ({ sentStateL c0 with sendPingSoon := 0 } : Client.Cli) = c at hsf hcst hsi hcnt2
   have hwc : w.cs = ⟨c, .tunnel⟩ := by rw [cstate_eta w.cs h.ph, h.cli, hc]
   -- the answer as the client's `read_dns` delivers it
-  generalize hrq : (Client.Rq.mk (pkt.length : Int) H.id H.type 0 (H.name.headD 0) pkt) = rq
+  generalize hrq : (Client.Rq.mk (pkt.length : Int) H.id (answerType H.type) 0 (H.name.headD 0) pkt) = rq
   have hdl : Client.tunnelDns c rq = Client.upstream (ackBook c) (Client.decodeHdr pkt) [] false 2 := by
     have := tunnelDns_dataless_lazy c rq
       (by subst hrq; show Client.notData c (H.name.headD 0) = false
